@@ -7,6 +7,7 @@ import Goat.ServerConnThms
 namespace Goat.Tie.C07
 open Goat
 
+theorem flag_teardownCancelsFirst : Generated.cfg.teardownCancelsFirst = true := by decide
 theorem flag_recvRechecksDoneOnCtx : Generated.cfg.recvRechecksDoneOnCtx = true := by decide
 theorem flag_closedPrefersCtx : Generated.cfg.closedPrefersCtx = true := by decide
 theorem flag_finishOrder : Generated.cfg.finishOrder = true := by decide
